@@ -11,9 +11,10 @@ CONSTANTS
   FixedStar = TRUE
   FixedFinalInString = TRUE
   FixedNestedLiteral = TRUE
-  AnnChoices = {"noann", "int", "QA"}
+  BugBuiltinsFirst = FALSE
+  AnnChoices = {"noann", "int", "QTE"}
   DefaultChoices = {"none", "int:1", "..."}
-  RetChoices = {"noann", "int"}
+  RetChoices = {"noann", "int", "QTE"}
   AsyncChoices = {FALSE}
   FutureChoices = {FALSE, TRUE}
   DunderChoices = {FALSE, TRUE}
